@@ -2,5 +2,6 @@ import ButlerModel.Props.C03
 import ButlerModel.Props.C04
 import ButlerModel.Props.C11
 import ButlerModel.Props.C12
+import ButlerModel.Props.C14
 import ButlerModel.Props.C15
 import ButlerModel.Props.C17
